@@ -1,4 +1,26 @@
-(* C01 — accounting invariant and progress: no issued call waits forever (repaired tree). *)
+(* C01 — accounting invariant and progress: no issued call waits forever (repaired tree).
+   Proves the statements of ProofsProgress_SPEC.txt against Model.v:
+     reachable_acc       every reachable state satisfies AccInv (= FlagInv + the accounting fields)
+     no_stuck            fx = true: a reachable state with an issued call without outcome enables a
+                         label of progress_labels
+     progress_decreases  every enabled label of progress_labels strictly decreases [measure]
+   Adjustments with respect to the SPEC (meaning unchanged):
+   - the flag relations are a sub-record FlagInv (field a_flags); "list <> [] -> flag" is stated as
+     "forall r, In r list -> flag"; a_swept is split into f_swept (flag part) and a_swept;
+     a_srvside2 / a_pendonly are stated as disjunctions (premise "remote = true" became the disjunct
+     "remote = false"; "~ In r stages -> P" became "has_out \/ In r stages \/ P");
+     f_cur_rep (cur = Some _ -> replying = None) is new: LExec overwrites [replying].
+   - a_pendonly: the server side has dropped the peer OR the server's router is off.  The second
+     disjunct is needed: with the SPEC's progress_labels no_stuck is FALSE, counter-example (fx = true,
+     info r = mkInfo true 0 true true (OValue r)):
+       [LIssue 0 true; LHandoff 0 true; LSockSend 0 true; LNetC2S 0 true; LPop; LExec;
+        LSrvRouterOff; LReply false]
+     reaches a state with pend = [0], no outcome for 0, every stage empty, srv_router = false and
+     srv_peer = srv_open = cli_peer = cli_open = true: the reply was dropped because the router is
+     inactive, and none of the SPEC's labels is enabled.  The server's stop sequence does continue
+     (MessageRouter.stop closes the peer connections after switching the router off), so
+     LSrvPeerGone is added to progress_labels in the states with srv_router = false, and only there.
+     No other label had to be added (LCliLoopStop, LSrvLoopStop, LWorkerExit are not needed). *)
 Require Import QV.C01.Model QV.C01.ProofsBasic.
 
 Definition stages (s : state) : list nat :=
@@ -95,14 +117,6 @@ Ltac rw_in_hyps :=
          | E : ?x = Some _ |- context [?x] => rewrite E
          end.
 
-Ltac in_norm :=
-  unfold stages in *; unf;
-  rewrite ?has_out_iff in *; unf;
-  rewrite ?keys_set_out_all, ?keys_set_out in *;
-  cbn [opt_list map fst snd] in *;
-  rewrite ?in_app_iff in *;
-  cbn [In] in *.
-
 Section Progress.
   Variable fx : bool.
   Variable info : nat -> rinfo.
@@ -122,7 +136,8 @@ Section Progress.
     f_cli_loop : cli_loop s = false -> cli_open s = false /\ cli_router s = false;
     f_srv_loop : srv_loop s = false -> srv_open s = false /\ srv_router s = false;
     f_lost : forall r, In r (lost s) -> fx = true -> cli_loop s = false;
-    f_swept : swept s = true -> cli_loop s = false
+    f_swept : swept s = true -> cli_loop s = false;
+    f_cur_rep : forall n, cur s = Some n -> replying s = None
   }.
 
   Lemma init_flag : FlagInv init.
@@ -130,11 +145,11 @@ Section Progress.
 
   Lemma step_flag s l s' : step fx info s l = Some s' -> FlagInv s -> FlagInv s'.
   Proof.
-    intros H I. destruct I as [P1 P2 P3 P4 P5 I1 I2 I3 I4 I5 I6 P6 I7].
+    intros H I. destruct I as [P1 P2 P3 P4 P5 I1 I2 I3 I4 I5 I6 P6 I7 I8].
     destruct l; cbn [step] in H; unfold send_reply in H; break_step H; unf; norm_b; rw_in_hyps.
     all: constructor; unf.
     all: try (intros r' Hin; specialize (P1 r'); specialize (P2 r'); specialize (P3 r'); specialize (P4 r');
-              specialize (P5 r'); specialize (P6 r');
+              specialize (P5 r'); specialize (P6 r'); specialize (I8 r');
               try apply in_remove_nat in Hin;
               repeat match goal with
                      | E : ?x = [] |- _ => rewrite E in Hin
@@ -145,4 +160,353 @@ Section Progress.
     all: solve [intuition (subst; try congruence; auto)].
   Qed.
 
+  Record AccInv (s : state) : Prop := {
+    a_flags : FlagInv s;
+    (* every issued call is accounted for: it has an outcome, or sits in a stage, or is in the pending table *)
+    a_acc : forall r, r < nxt s -> has_out s r = true \/ In r (stages s) \/ In r (pend s);
+    a_bound : forall r, In r (stages s) \/ In r (pend s) \/ has_out s r = true -> r < nxt s;
+    (* remote requests on the server side are covered by the client's pending table (or already failed) *)
+    a_srvside : forall r, In r (c2s s ++ map fst (srvq s) ++ map fst (s2c s)) -> In r (pend s) \/ has_out s r = true;
+    a_srvside2 : forall r, In r (fifo s ++ opt_list (cur s) ++ map fst (opt_list (replying s))) ->
+                 remote (info r) = false \/ In r (pend s) \/ has_out s r = true;
+    (* after the client's final sweep nothing on the client side is without an outcome *)
+    a_swept : forall r, In r (lost s ++ handoff s) -> swept s = true -> has_out s r = true;
+    (* a pending request that is in no stage any more can only be resolved by the connection closing:
+       then the server side has dropped the peer, or the server's router is already stopped (and the
+       peer removal follows) *)
+    a_pendonly : forall r, In r (pend s) -> fx = true ->
+                 has_out s r = true \/ In r (stages s) \/ srv_peer s = false \/ srv_router s = false
+  }.
+
+  Lemma stages_iff s r :
+    In r (stages s) <->
+    In r (handoff s) \/ In r (sockq s) \/ In r (lost s) \/ In r (c2s s) \/ In r (fifo s) \/ In r (opt_list (cur s))
+    \/ In r (map fst (opt_list (replying s))) \/ In r (map fst (srvq s)) \/ In r (map fst (s2c s)).
+  Proof. unfold stages. rewrite !in_app_iff. reflexivity. Qed.
+
+  Ltac acc_prep l H :=
+    destruct l; cbn [step] in H; unfold send_reply in H; break_step H; unf; norm_b; rw_in_hyps.
+
+  Ltac inorm_goal :=
+    unf; rewrite ?keys_set_out_all, ?keys_set_out;
+    cbn [opt_list map fst snd]; rewrite ?map_app, ?in_app_iff; cbn [In map fst snd].
+  Ltac inorm_hyp K := cbn [In opt_list map fst snd] in K.
+
+  Ltac rem_facts r :=
+    repeat match goal with
+           | K : In _ (remove_nat _ _) |- _ => apply in_remove_nat in K
+           end;
+    try match goal with
+        | |- context [In r (remove_nat ?x ?l)] => pose proof (in_remove_nat_cases r x l)
+        end.
+
+  Ltac split_hyps :=
+    repeat match goal with
+           | K : _ \/ _ |- _ => destruct K as [K|K]
+           | K : _ /\ _ |- _ => destruct K
+           | K : False |- _ => contradiction
+           | K : In _ (remove_nat ?x ?l) |- _ =>
+               lazymatch goal with
+               | |- context [remove_nat x l] => fail
+               | _ => apply in_remove_nat in K
+               end
+           | K : (_ && _) = false |- _ => apply andb_false_iff in K
+           | K : (_ || _) = false |- _ => apply orb_false_iff in K
+           end.
+  Ltac atom := first [assumption | reflexivity].
+  Ltac disj :=
+    lazymatch goal with
+    | |- _ \/ _ => first [left; disj | right; disj]
+    | |- False => fail
+    | |- _ => atom
+    end.
+  Ltac close := first [disj | congruence | lia].
+  Ltac fin_n n :=
+    split_hyps; subst;
+    first [ close
+          | lazymatch n with
+            | S ?m => match goal with
+                      | K : ?P -> _ |- _ =>
+                          let X := fresh in assert (X : P) by disj; specialize (K X); clear X; fin_n m
+                      end
+            end ].
+  Ltac fin := fin_n 3.
+
+  Lemma step_a_acc s l s' : step fx info s l = Some s' -> AccInv s ->
+    forall r, r < nxt s' -> has_out s' r = true \/ In r (stages s') \/ In r (pend s').
+  Proof.
+    intros H I r Hr.
+    pose proof (a_acc _ I r) as A. pose proof (a_srvside _ I r) as B. pose proof (a_srvside2 _ I r) as C.
+    rewrite has_out_iff, stages_iff. rewrite ?has_out_iff, ?stages_iff in A.
+    rewrite ?has_out_iff, ?in_app_iff in B. rewrite ?has_out_iff, ?in_app_iff in C.
+    acc_prep l H.
+    all: try match goal with E : cur _ = Some ?n |- _ => rewrite (f_cur_rep _ (a_flags _ I) n E) in * end.
+    all: try match type of Hr with _ < S _ => assert (Hr' : r < nxt s \/ r = nxt s) by lia; clear Hr;
+               destruct Hr' as [Hr|Hr]; [|clear A] end.
+    all: try specialize (A Hr).
+    all: inorm_goal; rem_facts r; try inorm_hyp A; inorm_hyp B; inorm_hyp C.
+    all: solve [fin].
+  Qed.
+
+  Lemma step_a_bound s l s' : step fx info s l = Some s' -> AccInv s ->
+    forall r, In r (stages s') \/ In r (pend s') \/ has_out s' r = true -> r < nxt s'.
+  Proof.
+    intros H I r Hr.
+    pose proof (a_bound _ I r) as A.
+    clear I. rewrite has_out_iff, stages_iff in Hr. rewrite ?has_out_iff, ?stages_iff in A.
+    acc_prep l H.
+    all: unf; rewrite ?keys_set_out_all, ?keys_set_out in Hr;
+         cbn [opt_list map fst snd] in Hr; rewrite ?map_app, ?in_app_iff in Hr; cbn [In map fst snd] in Hr.
+    all: rem_facts r; inorm_hyp A.
+    all: solve [fin].
+  Qed.
+
+  Lemma step_a_srvside s l s' : step fx info s l = Some s' -> AccInv s ->
+    forall r, In r (c2s s' ++ map fst (srvq s') ++ map fst (s2c s')) -> In r (pend s') \/ has_out s' r = true.
+  Proof.
+    intros H I r Hr.
+    pose proof (a_srvside _ I r) as B. pose proof (a_srvside2 _ I r) as C.
+    rewrite has_out_iff. rewrite ?in_app_iff in Hr.
+    rewrite ?has_out_iff, ?in_app_iff in B. rewrite ?has_out_iff, ?in_app_iff in C.
+    acc_prep l H.
+    all: unf; cbn [opt_list map fst snd] in Hr; rewrite ?map_app, ?in_app_iff in Hr; cbn [In map fst snd] in Hr.
+    all: inorm_goal; rem_facts r; inorm_hyp B; inorm_hyp C.
+    all: solve [fin].
+  Qed.
+
+  Lemma step_a_srvside2 s l s' : step fx info s l = Some s' -> AccInv s ->
+    forall r, In r (fifo s' ++ opt_list (cur s') ++ map fst (opt_list (replying s'))) ->
+              remote (info r) = false \/ In r (pend s') \/ has_out s' r = true.
+  Proof.
+    intros H I r Hr.
+    pose proof (a_srvside _ I r) as B. pose proof (a_srvside2 _ I r) as C.
+    rewrite has_out_iff. rewrite ?in_app_iff in Hr.
+    rewrite ?has_out_iff, ?in_app_iff in B. rewrite ?has_out_iff, ?in_app_iff in C.
+    acc_prep l H.
+    all: unf; cbn [opt_list map fst snd] in Hr; rewrite ?map_app, ?in_app_iff in Hr; cbn [In map fst snd] in Hr.
+    all: inorm_goal; rem_facts r; inorm_hyp B; inorm_hyp C.
+    all: solve [fin].
+  Qed.
+
+  Lemma step_a_swept s l s' : step fx info s l = Some s' -> AccInv s ->
+    forall r, In r (lost s' ++ handoff s') -> swept s' = true -> has_out s' r = true.
+  Proof.
+    intros H I r Hr Hs.
+    pose proof (a_swept _ I r) as B.
+    pose proof (f_swept _ (a_flags _ I)) as F1. pose proof (f_cli_loop _ (a_flags _ I)) as F2.
+    rewrite has_out_iff. rewrite ?in_app_iff in Hr.
+    rewrite ?has_out_iff, ?in_app_iff in B.
+    acc_prep l H.
+    all: unf; cbn [opt_list map fst snd] in Hr; rewrite ?map_app, ?in_app_iff in Hr; cbn [In map fst snd] in Hr.
+    all: inorm_goal; rem_facts r; inorm_hyp B.
+    all: solve [fin].
+  Qed.
+
+  Lemma step_a_pendonly s l s' : step fx info s l = Some s' -> AccInv s ->
+    forall r, In r (pend s') -> fx = true ->
+              has_out s' r = true \/ In r (stages s') \/ srv_peer s' = false \/ srv_router s' = false.
+  Proof.
+    intros H I r Hr Hfx.
+    pose proof (fun h => a_pendonly _ I r h Hfx) as P.
+    pose proof (f_srv_loop _ (a_flags _ I)) as F1. pose proof (f_pend_open _ (a_flags _ I) r) as F2.
+    rewrite has_out_iff, stages_iff. rewrite ?has_out_iff, ?stages_iff in P.
+    rewrite Hfx in H.
+    acc_prep l H.
+    all: try match goal with E : cur _ = Some ?n |- _ => rewrite (f_cur_rep _ (a_flags _ I) n E) in * end.
+    all: unf; cbn [opt_list map fst snd] in Hr; rewrite ?map_app, ?in_app_iff in Hr; cbn [In map fst snd] in Hr.
+    all: inorm_goal; rem_facts r; inorm_hyp P.
+    all: solve [fin].
+  Qed.
+
+  Lemma init_acc : AccInv init.
+  Proof.
+    constructor; [apply init_flag | ..]; cbn; intros; try contradiction; try lia; try discriminate.
+    all: intuition discriminate.
+  Qed.
+
+  Lemma step_acc s l s' : step fx info s l = Some s' -> AccInv s -> AccInv s'.
+  Proof.
+    intros H I. constructor.
+    - eapply step_flag; [exact H | apply a_flags; exact I].
+    - eapply step_a_acc; eassumption.
+    - eapply step_a_bound; eassumption.
+    - eapply step_a_srvside; eassumption.
+    - eapply step_a_srvside2; eassumption.
+    - eapply step_a_swept; eassumption.
+    - eapply step_a_pendonly; eassumption.
+  Qed.
+
+  Lemma run_acc ls : forall s s', run fx info s ls = Some s' -> AccInv s -> AccInv s'.
+  Proof.
+    induction ls as [|l ls IH]; simpl; intros s s' H I.
+    - inversion H; subst; exact I.
+    - destruct (step fx info s l) as [s1|] eqn:E; [|discriminate].
+      eapply IH; [exact H|]. eapply step_acc; eassumption.
+  Qed.
+
+  Theorem reachable_acc ls s : run fx info init ls = Some s -> AccInv s.
+  Proof. intro H. eapply run_acc; [exact H | apply init_acc]. Qed.
+
+
+  (* ---- progress --------------------------------------------------------------------------------- *)
+  (* labels that continue work already begun (not a new call, not the start of a fault), with every
+     possible observed outcome.  LSrvClose / LCliClose continue a removal of the peer already begun
+     (guards: peer gone); LSrvPeerGone is a progress label only once the server's router has been
+     switched off: MessageRouter.stop then goes on to close every peer connection. *)
+  Definition both (f : bool -> label) : list label := [f true; f false].
+  Definition progress_labels (s : state) : list label :=
+    flat_map (fun r => both (LHandoff r)) (handoff s)
+    ++ flat_map (fun r => both (LSockSend r)) (firstn 1 (sockq s))
+    ++ flat_map (fun r => both (LNetC2S r)) (firstn 1 (c2s s))
+    ++ [LPop; LExec] ++ both LReply ++ both LReject
+    ++ flat_map (fun r => [LSrvSend r Sent; LSrvSend r SentError; LSrvSend r Dropped]) (map fst (firstn 1 (srvq s)))
+    ++ map LNetS2C (map fst (firstn 1 (s2c s)))
+    ++ [LSrvClose; LCliClose; LCliEof; LSrvEof; LCliSweep]
+    ++ (if srv_router s then [] else [LSrvPeerGone]).
+
+  Ltac in_pl :=
+    unfold progress_labels, both;
+    repeat match goal with
+           | E : ?x = _ :: _ |- context [?x] => rewrite E
+           | E : ?x = false |- context [if ?x then _ else _] => rewrite E
+           end;
+    rewrite ?in_app_iff; cbn [firstn flat_map map fst app In]; rewrite ?in_app_iff; cbn [In]; disj.
+
+  Lemma ns_stage s r : AccInv s -> fx = true -> In r (stages s) -> has_out s r = false ->
+    exists l, In l (progress_labels s) /\ step fx info s l <> None.
+  Proof.
+    intros I Hfx A Hno. pose proof (a_flags _ I) as F.
+    apply stages_iff in A. destruct A as [A|[A|[A|[A|[A|[A|[A|[A|A]]]]]]]].
+    - (* handoff *)
+      exists (LHandoff r (cli_loop s)). split.
+      + unfold progress_labels. apply in_or_app. left. apply in_flat_map. exists r. split; [exact A|].
+        destruct (cli_loop s); simpl; auto.
+      + cbn [step]. rewrite (In_mem_nat _ _ A). rewrite Bool.eqb_reflx. cbn. destruct (cli_loop s); discriminate.
+    - (* sockq *)
+      destruct (sockq s) as [|x rest] eqn:E; [contradiction|].
+      assert (Hl : cli_loop s = true) by (apply (f_sockq_loop _ F x); rewrite E; left; reflexivity).
+      destruct (cli_peer s && ser_req (info x) && srv_open s) eqn:C.
+      + exists (LSockSend x true). split; [in_pl|].
+        cbn [step]. rewrite E, Nat.eqb_refl, Hl. cbn [andb]. unf. rewrite C. discriminate.
+      + exists (LSockSend x false). split; [in_pl|].
+        cbn [step]. rewrite E, Nat.eqb_refl, Hl. cbn [andb]. unf. rewrite C, Hfx. cbn. discriminate.
+    - (* lost *)
+      assert (Hl : cli_loop s = false) by (apply (f_lost _ F r A Hfx)).
+      destruct (swept s) eqn:Sw.
+      + rewrite (a_swept _ I r) in Hno; [discriminate| |exact Sw]. apply in_or_app. left. exact A.
+      + exists LCliSweep. split; [in_pl|]. cbn [step]. rewrite Hfx, Hl, Sw. discriminate.
+    - (* c2s *)
+      destruct (c2s s) as [|x rest] eqn:E; [contradiction|].
+      assert (Ho : srv_open s = true) by (apply (f_c2s_open _ F x); rewrite E; left; reflexivity).
+      exists (LNetC2S x (running s)). split.
+      + destruct (running s); in_pl.
+      + cbn [step]. rewrite E, Nat.eqb_refl, Ho. cbn [andb]. unf.
+        destruct (running s); [discriminate|]. rewrite Bool.andb_false_r. destruct (cli_open s); discriminate.
+    - (* fifo *)
+      destruct (fifo s) as [|x rest] eqn:E; [contradiction|].
+      destruct (phase s) eqn:Ph; [|apply (f_gone _ F) in Ph; destruct Ph as [Ph _]; congruence].
+      destruct (cur s) as [c|] eqn:Ec.
+      { exists LExec. split; [in_pl|]. cbn [step]. rewrite Ec. discriminate. }
+      destruct (replying s) as [[r0 o]|] eqn:Er.
+      { exists (LReply (srv_can_send s)). split; [destruct (srv_can_send s); in_pl|].
+        cbn [step]. rewrite Er. unfold send_reply, srv_can_send. unf.
+        destruct (remote (info r0)); [|discriminate].
+        destruct (srv_router s && srv_peer s && srv_loop s); discriminate. }
+      destruct (shutdown s) eqn:Sh.
+      + exists (LReject (srv_can_send s)). split; [destruct (srv_can_send s); in_pl|].
+        cbn [step]. rewrite Ph, Ec, Er, E, Sh. unfold send_reply, srv_can_send. unf.
+        destruct (remote (info x)); [|discriminate].
+        destruct (srv_router s && srv_peer s && srv_loop s); discriminate.
+      + exists LPop. split; [in_pl|]. cbn [step]. rewrite Ph, Ec, Er, E, Sh. discriminate.
+    - (* cur *)
+      destruct (cur s) as [c|] eqn:Ec; [|contradiction].
+      exists LExec. split; [in_pl|]. cbn [step]. rewrite Ec. discriminate.
+    - (* replying *)
+      destruct (replying s) as [[r0 o]|] eqn:Er; [|contradiction].
+      exists (LReply (srv_can_send s)). split; [destruct (srv_can_send s); in_pl|].
+      cbn [step]. rewrite Er. unfold send_reply, srv_can_send. unf.
+      destruct (remote (info r0)); [|discriminate].
+      destruct (srv_router s && srv_peer s && srv_loop s); discriminate.
+    - (* srvq *)
+      destruct (srvq s) as [|[x o] rest] eqn:E; [contradiction|].
+      assert (Hl : srv_loop s = true) by (apply (f_srvq_loop _ F x); rewrite E; left; reflexivity).
+      destruct (srv_peer s && cli_open s) eqn:L; [destruct (picklable info x o) eqn:Pk|].
+      + exists (LSrvSend x Sent). split; [in_pl|].
+        cbn [step]. rewrite E, Nat.eqb_refl, Hl. cbn [andb]. unf. rewrite L, Pk. discriminate.
+      + exists (LSrvSend x SentError). split; [in_pl|].
+        cbn [step]. rewrite E, Nat.eqb_refl, Hl. cbn [andb]. unf. rewrite L, Pk, Hfx. discriminate.
+      + exists (LSrvSend x Dropped). split; [in_pl|].
+        cbn [step]. rewrite E, Nat.eqb_refl, Hl. cbn [andb]. unf. rewrite L. discriminate.
+    - (* s2c *)
+      destruct (s2c s) as [|[x o] rest] eqn:E; [contradiction|].
+      assert (Ho : cli_open s = true) by (apply (f_s2c_open _ F x); rewrite E; left; reflexivity).
+      exists (LNetS2C x). split; [in_pl|].
+      cbn [step]. rewrite E, Nat.eqb_refl, Ho. discriminate.
+  Qed.
+
+  (* NO CALL WAITS FOREVER (repaired tree, fx = true): in every reachable state in which some issued
+     call has no outcome yet, a progress step is enabled. *)
+  Theorem no_stuck ls s r :
+    fx = true -> run fx info init ls = Some s -> r < nxt s -> has_out s r = false ->
+    exists l, In l (progress_labels s) /\ step fx info s l <> None.
+  Proof.
+    intros Hfx Hrun Hr Hno. pose proof (reachable_acc _ _ Hrun) as I. pose proof (a_flags _ I) as F.
+    destruct (a_acc _ I r Hr) as [A|[A|A]]; [congruence | eapply ns_stage; eassumption |].
+    destruct (a_pendonly _ I r A Hfx) as [P|[P|P]]; [congruence | eapply ns_stage; eassumption |].
+    assert (Ho : cli_open s = true) by (apply (f_pend_open _ F r A)).
+    destruct (srv_peer s) eqn:Sp.
+    - (* the server's router is off, its peer not yet removed: the stop sequence removes it *)
+      destruct P as [P|P]; [discriminate|].
+      exists LSrvPeerGone. split; [in_pl|]. cbn [step]. rewrite Sp. discriminate.
+    - destruct (srv_open s) eqn:So.
+      + exists LSrvClose. split; [in_pl|]. cbn [step]. rewrite So, Sp. discriminate.
+      + destruct (s2c s) as [|[x o] rest] eqn:E.
+        * exists LCliEof. split; [in_pl|]. cbn [step]. rewrite E, Ho, So. discriminate.
+        * exists (LNetS2C x). split; [in_pl|]. cbn [step]. rewrite E, Nat.eqb_refl, Ho. discriminate.
+  Qed.
+
+  (* ... and progress steps terminate: a measure that every progress step strictly decreases *)
+  Definition is_progress (l : label) : bool :=
+    match l with
+    | LIssue _ _ | LUnregister | LStopFlag | LShutdown | LWorkerExit | LCliPeerGone
+    | LSrvRouterOff | LSrvLoopStop | LCliRouterOff | LCliLoopStop => false
+    | _ => true
+    end.
+
+  Lemma progress_labels_kind s l : In l (progress_labels s) -> is_progress l = true.
+  Proof.
+    unfold progress_labels, both. rewrite !in_app_iff, !in_flat_map, !in_map_iff. intro H.
+    destruct (srv_router s);
+    repeat match goal with
+           | K : _ \/ _ |- _ => destruct K as [K|K]
+           | K : exists _, _ |- _ => destruct K as [? K]
+           | K : _ /\ _ |- _ => destruct K
+           | K : False |- _ => contradiction
+           | K : In _ (_ :: _) |- _ => cbn [In] in K
+           | K : In _ [] |- _ => contradiction
+           end; subst; reflexivity.
+  Qed.
+
+  Definition b2n (b : bool) : nat := if b then 1 else 0.
+  Definition measure (s : state) : nat :=
+    9 * length (handoff s) + 8 * length (sockq s) + length (lost s) + 7 * length (c2s s) + 6 * length (fifo s)
+    + 5 * length (opt_list (cur s)) + 4 * length (opt_list (replying s)) + 3 * length (srvq s)
+    + 2 * length (s2c s)
+    + b2n (srv_open s) + b2n (cli_open s) + b2n (srv_peer s) + b2n (cli_peer s) + b2n (negb (swept s)).
+
+  Theorem progress_decreases s l s' :
+    In l (progress_labels s) -> step fx info s l = Some s' -> measure s' < measure s.
+  Proof.
+    intros Hin H. apply progress_labels_kind in Hin.
+    destruct l; try discriminate Hin; clear Hin; cbn [step] in H; unfold send_reply in H; break_step H;
+      unfold measure; unf; norm_b.
+    all: repeat match goal with
+                | E : ?x = _ |- context [?x] => rewrite E
+                end.
+    all: try match goal with
+             | K : In ?r ?l |- context [remove_nat ?r ?l] => pose proof (length_remove_nat r l K)
+             end.
+    all: rewrite ?app_length; cbn [length opt_list b2n negb].
+    all: lia.
+  Qed.
 End Progress.
